@@ -26,6 +26,7 @@ ASSUMPTIONS = [
     "Cross-session = fresh interpreters with PYTHONHASHSEED in {1,2,random}.",
 ]
 SHARDS = {"quick": 16, "thorough": 16}
+MANIFEST = {"technique": 'runtime monitoring: reference-hash oracle (canonical JSON md5 + published golden ids) over enumerated / random spellings, fresh interpreters and in-place edits', "engine": 'reference-model monitor'}
 TIME_CAP = {"quick": 60, "thorough": 900}
 
 GOLDEN = [
